@@ -208,6 +208,65 @@ func init() {
 				problem("partition.Service.Truncate: sort.Search predicate of the sorted insertion not found")
 			}
 		}
+		// chkInfo.update of the time index: two independent ifs?
+		indep, indepFound := false, false
+		if cf := parseFile("pkg/tmindex/cindex.go"); cf != nil {
+			if ud := funcDecl(cf, "chkInfo", "update"); ud != nil {
+				var ifs []*ast.IfStmt
+				for _, st := range ud.Body.List {
+					if is, ok := st.(*ast.IfStmt); ok {
+						ifs = append(ifs, is)
+					}
+				}
+				norm := func(e ast.Expr) string { return strings.ReplaceAll(exprStr(e), " ", "") }
+				if len(ifs) == 2 && ifs[0].Else == nil && ifs[1].Else == nil &&
+					norm(ifs[0].Cond) == "ci.MinTs>rInfo.MinTs" && norm(ifs[1].Cond) == "ci.MaxTs<rInfo.MaxTs" {
+					indep, indepFound = true, true
+				} else if len(ifs) == 1 && ifs[0].Else != nil && norm(ifs[0].Cond) == "ci.MinTs>rInfo.MinTs" {
+					if e, ok := ifs[0].Else.(*ast.IfStmt); ok && norm(e.Cond) == "ci.MaxTs<rInfo.MaxTs" {
+						indep, indepFound = false, true
+					}
+				}
+			}
+		}
+		if !indepFound {
+			problem("tmindex.chkInfo.update: neither two independent ifs nor if/else-if on MinTs/MaxTs")
+		}
+		// deleteJournal: size re-check between LockExclusively and TIndex.Delete
+		recheck := false
+		if dd := funcDecl(f, "Service", "deleteJournal"); dd == nil {
+			problem("partition.Service.deleteJournal not found")
+		} else {
+			locked, deleted := false, false
+			for _, st := range dd.Body.List {
+				txt := strings.ReplaceAll(c09NodeString(st), " ", "")
+				if strings.Contains(txt, "LockExclusively(") {
+					locked = true
+				}
+				if strings.Contains(txt, "s.TIndex.Delete(") {
+					deleted = true
+				}
+				if is, ok := st.(*ast.IfStmt); ok && locked && !deleted && is.Init != nil {
+					if strings.ReplaceAll(c09NodeString(is.Init), " ", "") == "sz:=j.Size()" && strings.ReplaceAll(exprStr(is.Cond), " ", "") == "sz>0" {
+						unl, ret := false, false
+						for _, b := range is.Body.List {
+							bt := strings.ReplaceAll(c09NodeString(b), " ", "")
+							if strings.Contains(bt, "UnlockExclusively(") {
+								unl = true
+							}
+							if bt == "returnfalse" {
+								ret = true
+							}
+						}
+						recheck = unl && ret
+					}
+				}
+			}
+		}
+		l.p("/-- `chkInfo.update` adjusts MinTs and MaxTs in two independent `if`s (true) or in `if … else if …` (false) -/")
+		l.p("def hullUpdateIndependentIfs : Bool := %s", leanBool(indep))
+		l.p("/-- `deleteJournal` re-checks `j.Size() > 0` (unlock, return false) between `LockExclusively` and `TIndex.Delete` -/")
+		l.p("def deleteJournalRechecksSize : Bool := %s", leanBool(recheck))
 		l.p("/-- `truncate` still calls `jrnl.Size()` for the total -/")
 		l.p("def truncateReadsJournalSize : Bool := %s", leanBool(readsJournalSize))
 		l.p("/-- the total is accumulated as `size += sizes[i]` over the snapshot of the chunk sizes -/")
